@@ -533,15 +533,20 @@ class Accumulator:
         self._running_var = None
 
     def push(self, x):
-        self._n += 1
+        # work on the new count and commit it last, so that a push that
+        # raises (a frame of the wrong kind or shape) counts for nothing
+        n = self._n + 1
 
-        if self._n == 1:
-            self._running_var = x * 0.0
-            self._running_mean = self._running_var + x
+        if n == 1:
+            running_var = x * 0.0
+            self._running_mean = running_var + x
+            self._running_var = running_var
         else:
-            self._running_var += ((x - self._running_mean) *
-             ((x - (self._running_mean + (x - self._running_mean) / self._n))))
-            self._running_mean += (x - self._running_mean) / self._n
+            delta = x - self._running_mean
+            new_mean = self._running_mean + delta / n
+            self._running_var += delta * (x - new_mean)
+            self._running_mean = new_mean
+        self._n = n
 
     def mean(self):
         return self._running_mean if self._running_mean is not None else 0.0
